@@ -1,54 +1,54 @@
 (* Proofs/ParseFacts: Parse is total (the fuel of the model is never used up,
    no slice leaves the input below 4 GiB), sound (returns only linked
-   records), faithful on well-formed files up to the raw/expanded duplicate
-   test, and independent of the bytes after its input outside one class of
-   header lengths. *)
+   records, with pairwise different stored names), faithful on every
+   well-formed file, and a function of its input alone. *)
 From Coq Require Import List Arith NArith ZArith Bool Lia Permutation.
 From Tele Require Import Lib.Bytes Lib.BytesN Gen.Consts Model.DecodeStack Model.Layout Model.Parse
-  Proofs.LayoutArith Proofs.LayoutRead.
+  Proofs.LayoutArith Proofs.LayoutRead Proofs.WriterFacts.
 Import ListNotations.
 Open Scope N_scope.
 
 (* ---------------------------------------------------------------- totality *)
 
-Lemma parse_walk_total fuel sz bs hdr : forall n off acc,
+Lemma parse_walk_total fuel sz bs hdr : forall n off seen acc,
   sz / 32 + 2 <= N.of_nat fuel + n -> n <= sz / 32 + 1 ->
-  parse_walk fuel sz bs hdr n off acc <> WDiverge.
+  parse_walk fuel sz bs hdr n off seen acc <> WDiverge.
 Proof.
-  induction fuel as [|f IH]; intros n off acc H1 H2.
+  induction fuel as [|f IH]; intros n off seen acc H1 H2.
   - cbn in H1. lia.
   - cbn [parse_walk]. destruct (off =? 0); [discriminate|]. change c_recordUnit with 32.
     destruct (N.ltb_spec (sz / 32) n) as [|Hn]; [discriminate|].
     destruct (entry_at_sz sz bs hdr off) as [[[ename next] v]|]; [|discriminate].
-    destruct (has_key ename acc); [discriminate|]. apply IH; lia.
+    destruct (has_name ename seen); [discriminate|]. apply IH; lia.
 Qed.
 
 (* the outer loop in the form with one load32 per bucket *)
-Fixpoint pb_ref (oob : bytes) (sz : N) (bs : bytes) (hdr : N) (is : list N) (acc : list (bytes * N)) : wresult :=
+Fixpoint pb_ref (oob : bytes) (sz : N) (bs : bytes) (hdr : N) (is : list N) (seen : list bytes)
+    (acc : list (bytes * N)) : wresult :=
   match is with
-  | [] => WOk acc
+  | [] => WOk seen acc
   | i :: is' =>
       match parse_walk (walk_fuel_sz sz) sz bs hdr 0
-              (head_word oob sz (head_off hdr i) (dropN bs (head_off hdr i))) acc with
-      | WOk acc' => pb_ref oob sz bs hdr is' acc'
+              (head_word oob sz (head_off hdr i) (dropN bs (head_off hdr i))) seen acc with
+      | WOk seen' acc' => pb_ref oob sz bs hdr is' seen' acc'
       | r => r
       end
   end.
 
-Lemma parse_buckets_ref oob sz bs hdr : forall k a acc,
-  parse_buckets oob sz bs hdr (range_from a k) (dropN bs (head_off hdr a)) acc
-  = pb_ref oob sz bs hdr (range_from a k) acc.
+Lemma parse_buckets_ref oob sz bs hdr : forall k a seen acc,
+  parse_buckets oob sz bs hdr (range_from a k) (dropN bs (head_off hdr a)) seen acc
+  = pb_ref oob sz bs hdr (range_from a k) seen acc.
 Proof.
-  induction k as [|k IH]; intros a acc; [reflexivity|]. cbn [range_from parse_buckets pb_ref].
-  destruct (parse_walk _ _ _ _ _ _ _) as [| |acc']; try reflexivity.
+  induction k as [|k IH]; intros a seen acc; [reflexivity|]. cbn [range_from parse_buckets pb_ref].
+  destruct (parse_walk _ _ _ _ _ _ _ _) as [| |seen' acc']; try reflexivity.
   rewrite dropN_dropN. replace (head_off hdr a + 4) with (head_off hdr (a + 1)) by (rewrite !head_off_val; lia).
   apply IH.
 Qed.
 
-Lemma pb_ref_total oob sz bs hdr : forall is acc, pb_ref oob sz bs hdr is acc <> WDiverge.
+Lemma pb_ref_total oob sz bs hdr : forall is seen acc, pb_ref oob sz bs hdr is seen acc <> WDiverge.
 Proof.
-  induction is as [|i t IH]; intro acc; cbn [pb_ref]; [discriminate|].
-  destruct (parse_walk _ _ _ _ _ _ _) as [| |acc'] eqn:E; [|discriminate|apply IH].
+  induction is as [|i t IH]; intros seen acc; cbn [pb_ref]; [discriminate|].
+  destruct (parse_walk _ _ _ _ _ _ _ _) as [| |seen' acc'] eqn:E; [|discriminate|apply IH].
   exfalso. revert E. apply parse_walk_total.
   - unfold walk_fuel_sz. change c_recordUnit with 32. set (q := sz / 32).
     rewrite !Nat2N.inj_succ, N2Nat.id. lia.
@@ -66,7 +66,7 @@ Proof.
   - destruct (_ || _); [discriminate|].
     destruct (parse_meta _ _); [|discriminate].
     rewrite parse_buckets_ref.
-    destruct (pb_ref _ _ _ _ _ _) eqn:E; try discriminate. exfalso. revert E. apply pb_ref_total.
+    destruct (pb_ref _ _ _ _ _ _ _) eqn:E; try discriminate. exfalso. revert E. apply pb_ref_total.
 Qed.
 
 (* no partial operation: with the uint32 arithmetic and the slice expression
@@ -78,10 +78,11 @@ Proof.
   intros Hl Ho Hh. rewrite entry_at_nf. unfold entry_at_u32, u32, load32. change c_hashOff with 4.
   rewrite (N.mod_small (hdr + 4)) by lia.
   destruct (N.ltb_spec off (hdr + 4)) as [|H1]; cbn [orb]; [reflexivity|].
+  destruct (negb (off mod 8 =? 0)); cbn [orb]; [reflexivity|].
   destruct (N.ltb_spec (len bs) (off + 16)) as [|H2]; [reflexivity|].
   rewrite (N.mod_small (off + 8)), (N.mod_small (off + 12)), (N.mod_small (off + 16)) by lia.
-  destruct (N.leb_spec (len bs) (off + 8)) as [|_]; [lia|].
-  destruct (N.leb_spec (len bs) (off + 12)) as [|_]; [lia|].
+  destruct (N.ltb_spec (len bs) (off + 8 + 4)) as [|_]; [lia|].
+  destruct (N.ltb_spec (len bs) (off + 12 + 4)) as [|_]; [lia|].
   change 16777215 with (N.ones 24). rewrite N.land_ones. change (2 ^ 24) with 16777216.
   set (nl := get32 bs (off + 8) mod 16777216).
   destruct (N.eqb_spec nl 0) as [|H3]; cbn [orb]; [reflexivity|].
@@ -94,6 +95,18 @@ Qed.
 
 (* ---------------------------------------------------------------- soundness *)
 
+Lemma has_name_false k seen : has_name k seen = false <-> ~ In k seen.
+Proof.
+  unfold has_name. split.
+  - intros H Hin. assert (X : existsb (fun x => beq x k) seen = true).
+    { apply existsb_exists. exists k. split; [exact Hin|apply beq_refl]. }
+    rewrite X in H. discriminate.
+  - intro H. destruct (existsb _ seen) eqn:E; [|reflexivity]. exfalso.
+    apply existsb_exists in E as (x & Hx & Eb). apply beq_eq in Eb. subst x. contradiction.
+Qed.
+
+Definition expand (r : bytes * N) : bytes * N := (decode_stack (fst r), snd r).
+
 Section Sound.
   Variables (oob bs : bytes).
   Let sz := len bs.
@@ -104,37 +117,49 @@ Section Sound.
   | L_head i : i < 512 -> linked (head_word oob sz (head_off hl i) (dropN bs (head_off hl i)))
   | L_next off name next v : linked off -> entry_at bs hl off = Some (name, next, v) -> linked next.
 
-  Definition from_record (kv : bytes * N) : Prop :=
-    exists off name next, linked off /\ entry_at bs hl off = Some (name, next, snd kv) /\
-                          fst kv = decode_stack name.
+  (* (stored name, value) of a linked record *)
+  Definition raw_record (r : bytes * N) : Prop :=
+    exists off next, linked off /\ entry_at bs hl off = Some (fst r, next, snd r).
 
-  Lemma parse_walk_sound fuel : forall n off acc acc',
-    linked off -> Forall from_record acc ->
-    parse_walk fuel sz bs hl n off acc = WOk acc' -> Forall from_record acc'.
+  (* the state of the walk: seen and f.Count come from one list of records
+     with pairwise different stored names *)
+  Definition walk_inv (seen : list bytes) (acc : list (bytes * N)) : Prop :=
+    exists R, seen = map fst R /\ acc = map expand R /\ NoDup (map fst R) /\ Forall raw_record R.
+
+  Lemma parse_walk_sound fuel : forall n off seen acc seen' acc',
+    linked off -> walk_inv seen acc ->
+    parse_walk fuel sz bs hl n off seen acc = WOk seen' acc' -> walk_inv seen' acc'.
   Proof.
-    induction fuel as [|f IH]; intros n off acc acc' Hl Ha; cbn [parse_walk].
-    - destruct (off =? 0); [|discriminate]. intro E. injection E as <-. exact Ha.
-    - destruct (off =? 0); [intro E; injection E as <-; exact Ha|].
+    induction fuel as [|f IH]; intros n off seen acc seen' acc' Hl Ha; cbn [parse_walk].
+    - destruct (off =? 0); [|discriminate]. intro E. injection E as <- <-. exact Ha.
+    - destruct (off =? 0); [intro E; injection E as <- <-; exact Ha|].
       destruct (_ <? n); [discriminate|].
       destruct (entry_at_sz sz bs hl off) as [[[ename next] v]|] eqn:E; [|discriminate].
-      destruct (has_key ename acc); [discriminate|].
+      destruct (has_name ename seen) eqn:Hn; [discriminate|]. apply has_name_false in Hn.
       apply IH.
       + eapply L_next; [exact Hl|exact E].
-      + constructor; [|exact Ha]. exists off, ename, next. repeat split; assumption.
+      + destruct Ha as (R & -> & -> & Hnd & Hf). exists ((ename, v) :: R).
+        repeat split; cbn [map fst]; try reflexivity.
+        * constructor; assumption.
+        * constructor; [|exact Hf]. exists off, next. split; [exact Hl|exact E].
   Qed.
 
-  Lemma pb_ref_sound : forall is acc acc', Forall (fun i => i < 512) is -> Forall from_record acc ->
-    pb_ref oob sz bs hl is acc = WOk acc' -> Forall from_record acc'.
+  Lemma pb_ref_sound : forall is seen acc seen' acc', Forall (fun i => i < 512) is -> walk_inv seen acc ->
+    pb_ref oob sz bs hl is seen acc = WOk seen' acc' -> walk_inv seen' acc'.
   Proof.
-    induction is as [|i t IH]; intros acc acc' Hi Ha; cbn [pb_ref].
-    - intro E. injection E as <-. exact Ha.
+    induction is as [|i t IH]; intros seen acc seen' acc' Hi Ha; cbn [pb_ref].
+    - intro E. injection E as <- <-. exact Ha.
     - inversion Hi as [|? ? Hi1 Hi2]; subst.
-      destruct (parse_walk _ _ _ _ _ _ _) as [| |acc1] eqn:E; try discriminate.
-      intro E2. apply (IH acc1 acc' Hi2); [|exact E2].
+      destruct (parse_walk _ _ _ _ _ _ _ _) as [| |seen1 acc1] eqn:E; try discriminate.
+      intro E2. apply (IH seen1 acc1 seen' acc' Hi2); [|exact E2].
       eapply parse_walk_sound; [|exact Ha|exact E]. now apply L_head.
   Qed.
 
-  Theorem parse_sound kv cs : parse_with oob bs = POk kv cs -> Forall from_record cs.
+  (* every returned pair is a linked record with its name expanded, and the
+     records have pairwise different stored names: a repeated stored name is
+     answered with "corrupt", never with a result *)
+  Theorem parse_sound kv cs : parse_with oob bs = POk kv cs ->
+    exists R, cs = map expand R /\ NoDup (map fst R) /\ Forall raw_record R.
   Proof.
     unfold parse_with. cbv zeta.
     destruct (negb (has_prefix bs c_hdrPrefix) || (len bs <? c_pageSize)).
@@ -142,11 +167,17 @@ Section Sound.
     - rewrite hdr_np_val. fold hl. destruct (_ || _); [discriminate|].
       destruct (parse_meta _ _); [|discriminate].
       rewrite parse_buckets_ref. fold sz.
-      destruct (pb_ref _ _ _ _ _ _) as [| |acc] eqn:E; try discriminate.
-      intro X. injection X as _ <-. apply Forall_rev.
-      eapply pb_ref_sound; [|constructor|exact E].
-      apply Forall_forall. intros i Hi. apply range_from_in in Hi.
-      change (N.to_nat c_numHash) with 512%nat in Hi. lia.
+      destruct (pb_ref _ _ _ _ _ _ _) as [| |seen acc] eqn:E; try discriminate.
+      intro X. injection X as _ <-.
+      assert (W : walk_inv seen acc).
+      { eapply pb_ref_sound; [| |exact E].
+        - apply Forall_forall. intros i Hi. apply range_from_in in Hi.
+          change (N.to_nat c_numHash) with 512%nat in Hi. lia.
+        - exists []. repeat split; constructor. }
+      destruct W as (R & _ & -> & Hnd & Hf). exists (rev R). repeat split.
+      + now rewrite map_rev.
+      + rewrite map_rev. apply NoDup_rev. exact Hnd.
+      + now apply Forall_rev.
   Qed.
 End Sound.
 
@@ -163,19 +194,19 @@ Proof.
 Qed.
 
 (* the inner loop on a chain the layout reader accepts *)
-Fixpoint walk_spec (acc : list (bytes * N)) (c : list rec) : wresult :=
+Fixpoint walk_spec (seen : list bytes) (acc : list (bytes * N)) (c : list rec) : wresult :=
   match c with
-  | [] => WOk acc
-  | r :: t => if has_key (r_name r) acc then WCorrupt
-              else walk_spec ((decode_stack (r_name r), r_val r) :: acc) t
+  | [] => WOk seen acc
+  | r :: t => if has_name (r_name r) seen then WCorrupt
+              else walk_spec (r_name r :: seen) ((decode_stack (r_name r), r_val r) :: acc) t
   end.
 
-Lemma parse_walk_chain bs hdr limit : forall f off c fuel n acc,
+Lemma parse_walk_chain bs hdr limit : forall f off c fuel n seen acc,
   spec_chain f bs hdr limit off = Some c -> limit <= len bs ->
   n + N.of_nat (length c) <= len bs / 32 + 1 -> (length c < fuel)%nat ->
-  parse_walk fuel (len bs) bs hdr n off acc = walk_spec acc c.
+  parse_walk fuel (len bs) bs hdr n off seen acc = walk_spec seen acc c.
 Proof.
-  induction f as [|f IH]; intros off c fuel n acc H Hl Hn Hf.
+  induction f as [|f IH]; intros off c fuel n seen acc H Hl Hn Hf.
   - cbn [spec_chain] in H. destruct (N.eqb_spec off 0) as [->|]; [|discriminate].
     injection H as <-. destruct fuel; reflexivity.
   - destruct (N.eqb_spec off 0) as [->|Hz].
@@ -189,35 +220,56 @@ Proof.
       destruct (N.ltb_spec (len bs / 32) n) as [X|_]; [lia|].
       pose proof (spec_record_entry _ _ _ _ _ E Hl) as Ee. unfold entry_at in Ee. rewrite Ee.
       change (r_name (off, ename, v)) with ename. change (r_val (off, ename, v)) with v.
-      destruct (has_key ename acc); [reflexivity|].
-      apply (IH next c' fuel (n + 1) _ E2 Hl); lia.
+      destruct (has_name ename seen); [reflexivity|].
+      apply (IH next c' fuel (n + 1) _ _ E2 Hl); lia.
 Qed.
 
-Lemma walk_spec_app acc c1 c2 :
-  walk_spec acc (c1 ++ c2) = match walk_spec acc c1 with WOk acc' => walk_spec acc' c2 | r => r end.
+Lemma walk_spec_app seen acc c1 c2 :
+  walk_spec seen acc (c1 ++ c2) =
+  match walk_spec seen acc c1 with WOk seen' acc' => walk_spec seen' acc' c2 | r => r end.
 Proof.
-  revert acc; induction c1 as [|r t IH]; intro acc; cbn [app walk_spec]; [reflexivity|].
-  destruct (has_key (r_name r) acc); [reflexivity|apply IH].
+  revert seen acc; induction c1 as [|r t IH]; intros seen acc; cbn [app walk_spec]; [reflexivity|].
+  destruct (has_name (r_name r) seen); [reflexivity|apply IH].
 Qed.
 
-Lemma existsb_map {A B} (p : B -> bool) (g : A -> B) l : existsb p (map g l) = existsb (fun x => p (g x)) l.
-Proof. induction l as [|x t IH]; [reflexivity|]. cbn [map existsb]. now rewrite IH. Qed.
-
-Lemma walk_spec_clash rs : forall acc,
-  walk_spec acc rs = if twin_clash_from (map fst acc) rs then WCorrupt else WOk (rev (decoded rs) ++ acc).
+(* records with pairwise different names, none seen before: all are taken *)
+Lemma walk_spec_nodup rs : forall seen acc,
+  NoDup (map r_name rs) -> (forall r, In r rs -> ~ In (r_name r) seen) ->
+  walk_spec seen acc rs = WOk (rev (map r_name rs) ++ seen) (rev (decoded rs) ++ acc).
 Proof.
-  induction rs as [|r t IH]; intro acc; cbn [walk_spec twin_clash_from decoded map rev]; [reflexivity|].
-  unfold has_key. rewrite (existsb_map (fun k => beq k (r_name r)) fst).
-  destruct (existsb _ acc); cbn [orb]; [reflexivity|].
-  rewrite IH. cbn [map fst]. destruct (twin_clash_from _ t); [reflexivity|].
-  unfold decoded. rewrite <- app_assoc. reflexivity.
+  induction rs as [|r t IH]; intros seen acc Hnd Hs; [reflexivity|].
+  cbn [walk_spec map rev decoded]. cbn [map] in Hnd. inversion Hnd as [|? ? Hni Hnd']; subst.
+  replace (has_name (r_name r) seen) with false
+    by (symmetry; apply has_name_false; apply Hs; now left).
+  rewrite IH; [|exact Hnd'|].
+  - unfold decoded. rewrite <- !app_assoc. reflexivity.
+  - intros r' Hr' [Hin|Hin].
+    + apply Hni. rewrite Hin. now apply in_map.
+    + apply (Hs r'); [now right|exact Hin].
+Qed.
+
+(* a stored name that was seen before, or that occurs twice: corrupt *)
+Lemma walk_spec_dup rs : forall seen acc,
+  (exists r, In r rs /\ In (r_name r) seen) \/ ~ NoDup (map r_name rs) ->
+  walk_spec seen acc rs = WCorrupt.
+Proof.
+  induction rs as [|r t IH]; intros seen acc H.
+  - exfalso. destruct H as [(r & [] & _)|H]; apply H; constructor.
+  - cbn [walk_spec]. destruct (has_name (r_name r) seen) eqn:Hn; [reflexivity|].
+    apply has_name_false in Hn. apply IH.
+    destruct H as [(r' & [<-|Hr'] & Hin)|H].
+    + contradiction.
+    + left. exists r'. split; [exact Hr'|now right].
+    + destruct (in_dec (list_eq_dec N.eq_dec) (r_name r) (map r_name t)) as [Hin|Hni].
+      * left. apply in_map_iff in Hin as (r' & E & Hr'). exists r'. split; [exact Hr'|]. left. now symmetry.
+      * right. intro Hnd. apply H. cbn [map]. now constructor.
 Qed.
 
 Lemma head_word_in oob bs off : off + 4 <= len bs ->
   head_word oob (len bs) off (dropN bs off) = get32 bs off.
 Proof.
   intro H. unfold head_word, get32.
-  destruct (N.leb_spec (len bs) off) as [|_]; [lia|].
+  destruct (N.ltb_spec (len bs) (off + 4)) as [|_]; [lia|].
   pose proof (len_dropN bs off) as L.
   destruct (dropN bs off) as [|a [|b [|c [|d t]]]]; rewrite ?len_cons, ?len_nil in L; try lia; reflexivity.
 Qed.
@@ -227,29 +279,28 @@ Section Faithful.
             (tbl : list (list rec)).
   Hypothesis Hread : spec_read bs = Some (hdr, meta, kv, limit, tbl).
 
-  Lemma pb_ref_table : forall is t acc,
+  Lemma pb_ref_table : forall is t seen acc,
     Forall2 (bucket_ok bs hdr limit) is t -> Forall (fun i => i < 512) is ->
     hdr + 2052 <= len bs -> limit <= len bs ->
-    pb_ref oob (len bs) bs hdr is acc = walk_spec acc (concat t).
+    pb_ref oob (len bs) bs hdr is seen acc = walk_spec seen acc (concat t).
   Proof.
-    intros is t acc H. revert acc. induction H as [|i c is t Hb Hf IH]; intros acc Hi Hh Hl; [reflexivity|].
+    intros is t seen acc H. revert seen acc.
+    induction H as [|i c is t Hb Hf IH]; intros seen acc Hi Hh Hl; [reflexivity|].
     inversion Hi as [|? ? Hi1 Hi2]; subst. cbn [pb_ref concat]. rewrite walk_spec_app.
     rewrite head_word_in by (rewrite head_off_val; lia).
     unfold bucket_ok in Hb. apply spec_bucket_inv in Hb as [Hc _].
     pose proof (spec_chain_length _ _ _ _ _ _ Hc) as Hlen.
     assert (Hdiv : limit / 32 <= len bs / 32) by (apply N.div_le_mono; lia).
-    unfold chain_fuel in Hlen. change c_recordUnit with 32 in Hlen.
-    rewrite (parse_walk_chain bs hdr limit _ _ c _ 0 acc Hc Hl).
+    unfold chain_fuel in Hlen.
+    rewrite (parse_walk_chain bs hdr limit _ _ c _ 0 seen acc Hc Hl).
     2:{ lia. }
     2:{ unfold walk_fuel_sz. change c_recordUnit with 32. lia. }
-    destruct (walk_spec acc c); try reflexivity. now apply IH.
+    destruct (walk_spec seen acc c); try reflexivity. now apply IH.
   Qed.
 
-  (* parse_faithful, with the exact condition under which the raw/expanded
-     duplicate test rejects a well-formed file *)
-  Theorem parse_wf :
-    parse_with oob bs =
-    if twin_clash_from [] (concat tbl) then PErrCorrupt else POk kv (decoded (concat tbl)).
+  (* parse_faithful: on a well-formed file Parse returns the metadata and, in
+     bucket order, every record's (expanded name, value) *)
+  Theorem parse_wf : parse_with oob bs = POk kv (decoded (concat tbl)).
   Proof.
     pose proof (spec_read_inv _ _ _ _ _ _ Hread) as (Eh & Ek & El & H1 & H2 & H3 & H4 & H5 & Ht & Hp).
     pose proof (spec_header_inv _ _ _ Eh) as (hh & Hm & _ & Elen & E28 & Em & Hpp & Hle).
@@ -261,8 +312,8 @@ Section Faithful.
     destruct (N.ltb_spec hdr 32) as [|_]; [lia|].
     rewrite <- Em. unfold meta_kv in Ek. rewrite parse_meta_lines, Ek. cbn [rev app].
     rewrite parse_buckets_ref. change (range_from 0 (N.to_nat c_numHash)) with buckets.
-    rewrite (pb_ref_table buckets tbl [] Ht).
-    - rewrite walk_spec_clash. cbn [map]. destruct (twin_clash_from [] (concat tbl)); [reflexivity|].
+    rewrite (pb_ref_table buckets tbl [] [] Ht).
+    - rewrite walk_spec_nodup; [|now apply pairwise_names|intros r _ []].
       rewrite app_nil_r, rev_involutive. reflexivity.
     - apply Forall_forall. intros i Hi. now apply buckets_in.
     - lia.
@@ -270,89 +321,37 @@ Section Faithful.
   Qed.
 End Faithful.
 
-Theorem parse_faithful oob bs : wf_file bs = true -> twin_clash bs = false ->
+Theorem parse_faithful oob bs : wf_file bs = true ->
   match spec_decode bs with Some (kv, cs) => parse_with oob bs = POk kv cs | None => False end.
 Proof.
-  unfold wf_file, twin_clash, spec_decode, spec_records.
+  unfold wf_file, spec_decode.
   destruct (spec_read bs) as [[[[[hdr meta] kv] limit] tbl]|] eqn:E; [|discriminate].
-  intros _ Hc. rewrite (parse_wf oob bs hdr meta kv limit tbl E), Hc. reflexivity.
-Qed.
-
-Theorem parse_rejects_twin oob bs : wf_file bs = true -> twin_clash bs = true ->
-  parse_with oob bs = PErrCorrupt.
-Proof.
-  unfold wf_file, twin_clash, spec_records.
-  destruct (spec_read bs) as [[[[[hdr meta] kv] limit] tbl]|] eqn:E; [|discriminate].
-  intros _ Hc. rewrite (parse_wf oob bs hdr meta kv limit tbl E), Hc. reflexivity.
-Qed.
-
-(* a sufficient condition without reference to the walk order: no name is the
-   expansion of a different name *)
-Lemma no_twin_no_clash rs : forall seen,
-  NoDup (map r_name rs) ->
-  (forall r, In r rs -> ~ In (r_name r) seen) ->
-  (forall a b, In a rs -> In b rs -> r_name a <> r_name b -> r_name b <> decode_stack (r_name a)) ->
-  twin_clash_from seen rs = false.
-Proof.
-  induction rs as [|r t IH]; intros seen Hnd Hs Hd; [reflexivity|]. cbn [twin_clash_from].
-  cbn [map] in Hnd. inversion Hnd as [|? ? Hni Hnd']; subst.
-  apply orb_false_iff. split.
-  - destruct (existsb _ seen) eqn:E; [|reflexivity]. exfalso.
-    apply existsb_exists in E as (k & Hk & Eb). apply beq_eq in Eb. subst k.
-    apply (Hs r); [now left|exact Hk].
-  - apply IH; [exact Hnd'| |].
-    + intros r' Hr' [Hin|Hin].
-      * apply (Hd r r'); [now left|now right| |now symmetry].
-        intro X. apply Hni. rewrite X. now apply in_map.
-      * apply (Hs r'); [now right|exact Hin].
-    + intros a b Ha Hb. apply Hd; now right.
+  intros _. exact (parse_wf oob bs hdr meta kv limit tbl E).
 Qed.
 
 (* ---------------------------------------------------------------- bytes after the input *)
 
-Lemma head_word_indep o1 o2 bs off : negb ((off <? len bs) && (len bs <? off + 4)) = true ->
+Lemma head_word_indep o1 o2 bs off :
   head_word o1 (len bs) off (dropN bs off) = head_word o2 (len bs) off (dropN bs off).
 Proof.
-  intro H. apply negb_true_iff, andb_false_iff in H.
-  destruct (N.le_gt_cases (len bs) off) as [Hle|Hgt].
-  - unfold head_word. destruct (N.leb_spec (len bs) off); [reflexivity|lia].
-  - destruct H as [H|H]; [apply N.ltb_ge in H; lia|]. apply N.ltb_ge in H.
-    rewrite !head_word_in by exact H. reflexivity.
+  destruct (N.lt_ge_cases (len bs) (off + 4)) as [Hlt|Hge].
+  - unfold head_word. destruct (N.ltb_spec (len bs) (off + 4)); [reflexivity|lia].
+  - rewrite !head_word_in by exact Hge. reflexivity.
 Qed.
 
-Lemma pb_ref_indep o1 o2 bs hdr : forall is acc,
-  (forall i, In i is -> negb ((head_off hdr i <? len bs) && (len bs <? head_off hdr i + 4)) = true) ->
-  pb_ref o1 (len bs) bs hdr is acc = pb_ref o2 (len bs) bs hdr is acc.
+Lemma pb_ref_indep o1 o2 bs hdr : forall is seen acc,
+  pb_ref o1 (len bs) bs hdr is seen acc = pb_ref o2 (len bs) bs hdr is seen acc.
 Proof.
-  induction is as [|i t IH]; intros acc H; [reflexivity|]. cbn [pb_ref].
-  rewrite (head_word_indep o1 o2) by (apply H; now left).
-  destruct (parse_walk _ _ _ _ _ _ _); try reflexivity. apply IH. intros j Hj. apply H. now right.
+  induction is as [|i t IH]; intros seen acc; [reflexivity|]. cbn [pb_ref].
+  rewrite (head_word_indep o1 o2).
+  destruct (parse_walk _ _ _ _ _ _ _ _); try reflexivity. apply IH.
 Qed.
 
-(* outside the class oob_head the answer is a function of the input alone *)
-Theorem parse_oob_indep o1 o2 bs : oob_head bs = false -> parse_with o1 bs = parse_with o2 bs.
+(* for every input the answer is a function of the input alone *)
+Theorem parse_oob_indep o1 o2 bs : parse_with o1 bs = parse_with o2 bs.
 Proof.
-  intro H. unfold parse_with. cbv zeta.
+  unfold parse_with. cbv zeta.
   destruct (negb (has_prefix bs c_hdrPrefix) || (len bs <? c_pageSize)); [reflexivity|].
   destruct (_ || _); [reflexivity|]. destruct (parse_meta _ _); [|reflexivity].
-  rewrite !parse_buckets_ref. change (range_from 0 (N.to_nat c_numHash)) with buckets.
-  rewrite (pb_ref_indep o1 o2); [reflexivity|].
-  intros i Hi. unfold oob_head in H. cbv zeta in H.
-  apply negb_true_iff. destruct (_ && _) eqn:E; [|reflexivity]. exfalso.
-  assert (X : existsb (fun i => (head_off (get32 bs hdr_np) i <? len bs)
-                                && (len bs <? head_off (get32 bs hdr_np) i + 4)) buckets = true).
-  { apply existsb_exists. exists i. split; assumption. }
-  rewrite X in H. discriminate.
-Qed.
-
-Lemma wf_no_oob bs : wf_file bs = true -> oob_head bs = false.
-Proof.
-  unfold wf_file. destruct (spec_read bs) as [[[[[hdr meta] kv] limit] tbl]|] eqn:E; [|discriminate].
-  intros _. apply spec_read_inv in E. destruct E as (Eh & _ & _ & _ & H2 & _).
-  pose proof (spec_header_inv _ _ _ Eh) as (hh & Hm & _ & Elen & E28 & _).
-  pose proof (mapped_header_len _ _ Hm) as (_ & _ & Hb & _). rewrite Elen in Hb.
-  unfold oob_head. cbv zeta. rewrite hdr_np_val, <- E28.
-  destruct (existsb _ buckets) eqn:X; [|reflexivity]. exfalso.
-  apply existsb_exists in X as (i & Hi & Hx). apply buckets_in in Hi.
-  apply andb_true_iff in Hx as [_ Hx]. apply N.ltb_lt in Hx. rewrite head_off_val in Hx. lia.
+  rewrite !parse_buckets_ref. rewrite (pb_ref_indep o1 o2). reflexivity.
 Qed.
